@@ -6,7 +6,7 @@
 J=${1:-5}
 cd /verif
 one() {
-  d=$1; kind=$(basename $(dirname $d)); id=$(basename $d); prop=${id#R2-}; prop=${prop%%-*}
+  d=$1; kind=$(basename $(dirname $d)); id=$(basename $d); prop=${id#R2-}; prop=${prop#R3-}; prop=${prop%%-*}
   T=$(mktemp -d /tmp/regr.XXXXXX)
   if ! python3 tools/patch2overlay.py $d/patch.diff $T/ov >/dev/null 2>&1; then echo "$kind $id STALE (patch no longer applies)"; rm -rf $T; return; fi
   mkdir -p $T/verif/evidence; cp known_findings.json $T/verif/
@@ -23,7 +23,7 @@ one() {
   rm -rf $T
 }
 export -f one
-ls -d seeded/C* benign/C* benign/R2-* | xargs -P $J -I{} bash -c 'one {}' | sort > tools/regress.out
+ls -d seeded/C* benign/C* benign/R2-* benign/R3-* | xargs -P $J -I{} bash -c 'one {}' | sort > tools/regress.out
 grep -c DETECTED tools/regress.out | sed 's/^/seeds detected: /'
 grep -c QUIET tools/regress.out | sed 's/^/benign quiet: /'
 grep 'MISSED\|FALSE-ALARM\|STALE' tools/regress.out
